@@ -367,17 +367,22 @@ CFGS = [
      (0x0202, 0x82): b"\x01" * 8, (0x0101, 0x01): b"abc"},
     {(0x0620, 0x04): b"\x05", (0x0620, 0x03): b"dev only", (0x0620, 0x20): b"\x01", (0x0101, 0x02): bytes(150)},
     {(0x0101, 0x01): b"", (0x0303, None): None},
+    # anonymous settings: a version but neither the numeric scheme nor a name -> no identifier of that kind
+    {(0x0620, 0x04): b"\x02", (0x0620, 0x20): b"\x00", (0x0101, 0x01): b"q"},
+    {(0x0620, 0x07): b"\x09", (0x0620, 0x06): b"", (0x0620, 0x04): b"\x01", (0x0620, 0x01): b"\x00\x2a"},
 ]
-OPS = ["set0", "set1", "set2", "dc0", "dc1", "dc2", "fw+", "fw-", "ins", "rw"]
+OPS = ["set0", "set1", "set2", "set3", "dc0", "dc1", "dc2", "dc3", "dc4", "fw+", "fw-", "ins", "rw"]
 
 
 def fam_seq(seed, tier):
-    """all operation sequences of length <= 3 (1110) plus random ones of length 4..5 over the 10 operations"""
+    """all operation sequences of length <= 2, a quarter (thorough: all) of those of length 3, plus random ones of length
+    4..5 over the 13 operations (5 configurations: full project id, device-settings only, neither, anonymous device
+    settings, anonymous project settings + numeric device settings)"""
     import random
     rnd = random.Random(seed)
     for n in (1, 2, 3):
         for s in itertools.product(OPS, repeat=n):
-            if tier == "thorough" or n < 3 or rnd.random() < 0.25:
+            if tier == "thorough" or n < 3 or rnd.random() < 0.15:
                 yield dict(seq=list(s))
     for _ in range(150 if tier == "quick" else 3000):
         yield dict(seq=[rnd.choice(OPS) for _ in range(rnd.choice([4, 5]))])
@@ -409,7 +414,9 @@ def op_sequences(vc):
             model = [m for m in model if m[0] == "fw"] + [("cfg", cfg_of)]
         elif op.startswith("dc"):
             dc_of = int(op[2])
-            f.derive_comments_from_config(CFGS[dc_of])
+            o = vc.call(f.derive_comments_from_config, CFGS[dc_of])
+            if not o.returned:
+                bad.append((step, op, "derive_comments_from_config raised %r" % (o.exc,)))
         elif op in ("fw+", "fw-"):
             k += 1
             blob = b"fw%d" % k
@@ -445,3 +452,13 @@ def op_sequences(vc):
         if dict(f.comments).get("Creator") != "x":
             bad.append((step, op, "foreign comment changed"))
     vc.prove("history-independent", not bad, repr(bad[:2]))
+
+
+# the contract assumed above for ConfigId.create_from_prj_settings / create_from_dev_settings ("an identifier, or exactly
+# the Missing{Project,Device}SettingsNameError of ITS OWN kind") is the one proved under C12 - an obligation here too:
+# derive_comments_from_config / derive_auth_blocks_from_config catch exactly these two classes, any other escapes half-way
+# and leaves comments of an earlier configuration behind
+from pyvc.harness import reuse as _reuse
+from contracts import C12 as _C12x  # noqa: E402,F401
+_reuse("C12/create_from_prj_settings", "C11/create_from_prj_settings.id-or-its-own-missing-error")
+_reuse("C12/create_from_dev_settings", "C11/create_from_dev_settings.id-or-its-own-missing-error")
